@@ -244,9 +244,9 @@ absent_biased = lambda values: st.one_of(st.none(), st.none(), st.sampled_from(v
 
 callback_st = st.fixed_dictionaries(
     {
-        "device": absent_biased(["A", "B", "Z"]),
-        "vector": absent_biased(["P", "Q", "NOSUCH"]),
-        "element": absent_biased(["x", "y", "nosuch"]),
+        "device": absent_biased(["A", "B", "AB", "Z"]),
+        "vector": absent_biased(["P", "PQ", "Q", "NOSUCH"]),
+        "element": absent_biased(["x", "xy", "y", "nosuch"]),
         "etype": st.sampled_from(["Base", "Base", "Value", "State", "Definition"]),
         "coro": st.sampled_from([False, False, True]),
         "raises": st.sampled_from([False, False, False, True]),
